@@ -7,6 +7,7 @@ The routing theorems quantify over every member vector, cursor and status assign
 -/
 import Compio.Lemmas.Group
 import Compio.Lemmas.ActorProgress
+import Compio.Lemmas.ActorFuel
 import Compio.Lemmas.ActorLife
 import Compio.Lemmas.Registry
 import Compio.Lemmas.History
@@ -96,6 +97,15 @@ theorem actor_task_never_stuck {cap named s} (sc : Script) (h : Reached cap name
   obtain ⟨evs, hr⟩ := h
   exact nextEvents_enabled sc s (run_induct (P := InvR) (invR_init cap named) invR_step hr)
 
+/-- The driver's scheduler `settle` is fuel-independent: with `settleFuel` rounds the task always ends blocked
+(idle at `recv` or finished), and extra fuel changes nothing. -/
+theorem settle_ends_blocked_and_fuel_independent {cap named s} (sc : Script) (h : Reached cap named s) (k : Nat) :
+    nextEvents sc (settle sc (settleFuel s) s) = [] ∧
+    settle sc (settleFuel s + k) s = settle sc (settleFuel s) s := by
+  obtain ⟨evs, hr⟩ := h
+  have hR : InvR s := run_induct (invR_init cap named) invR_step hr
+  exact ⟨settle_blocked sc _ s hR (measure_le_fuel s), settle_fuel_independent sc s hR k⟩
+
 /-- An actor reports `Stopped` only if a stop request was consumed (or its spawn future had been dropped). -/
 theorem stopped_has_a_reason {cap named s} (h : Reached cap named s) (hp : s.pc = .exited .stopped) :
     s.stopConsumed = true ∨ s.detached = true := by
@@ -111,6 +121,14 @@ theorem closed_after_exit {cap named s} (h : Reached cap named s) (e : Exit) (hp
   have hc : s.isClosed = true := by simp [St.isClosed, hR.rx, hp, Pc.rxDropped]
   have := sendNow_result s it r s' hs
   simpa [hc] using this
+
+/-- From `begin_stop` on -- in particular while `pre_stop` and `post_stop` run -- the mailbox rejects new
+messages. -/
+theorem closed_during_stop_hooks {cap named s} (h : Reached cap named s)
+    (hp : s.pc.afterBeginStop = true) : s.isClosed = true := by
+  obtain ⟨evs, hr⟩ := h
+  have hR : InvR s := run_induct (invR_init cap named) invR_step hr
+  simp [St.isClosed, hR.stopping hp]
 
 /-! ## 2. Lifecycle hooks: documented order, exactly once, on every path -/
 
